@@ -95,7 +95,16 @@ func (m *SynchronizedMemory) BindVulkanImage(driver core1_0.DeviceDriver, offset
 
 	return driver.BindImageMemory(image, m.memory, offset)
 }
+// References reports the number of mapping references, including the one held by the mapping
+// hysteresis. It takes the mapping lock; code that already holds it uses references.
 func (m *SynchronizedMemory) References() int {
+	m.mapMutex.Lock()
+	defer m.mapMutex.Unlock()
+
+	return m.references()
+}
+
+func (m *SynchronizedMemory) references() int {
 	refs := m.mapReferences
 	if m.extraMapping {
 		refs++
@@ -104,6 +113,9 @@ func (m *SynchronizedMemory) References() int {
 }
 
 func (m *SynchronizedMemory) MappedData() unsafe.Pointer {
+	m.mapMutex.Lock()
+	defer m.mapMutex.Unlock()
+
 	return m.mapData
 }
 
@@ -160,7 +172,7 @@ func (m *SynchronizedMemory) Map(driver core1_0.DeviceDriver, references int, of
 	m.mapMutex.Lock()
 	defer m.mapMutex.Unlock()
 
-	oldRefCount := m.References()
+	oldRefCount := m.references()
 	switchedToExtraMapping := m.postMapUnmap()
 
 	if oldRefCount > 0 {
@@ -187,12 +199,12 @@ func (m *SynchronizedMemory) Map(driver core1_0.DeviceDriver, references int, of
 }
 
 func (m *SynchronizedMemory) Unmap(driver core1_0.DeviceDriver, references int) error {
+	m.mapMutex.Lock()
+	defer m.mapMutex.Unlock()
+
 	if m.mapReferences == 0 {
 		return nil
 	}
-
-	m.mapMutex.Lock()
-	defer m.mapMutex.Unlock()
 
 	if m.mapReferences < references {
 		return errors.New("device memory block has more references being unmapped than are currently mapped")
@@ -204,7 +216,7 @@ func (m *SynchronizedMemory) Unmap(driver core1_0.DeviceDriver, references int) 
 	}
 	m.postMapUnmap()
 
-	if m.References() <= 0 {
+	if m.references() <= 0 {
 		driver.UnmapMemory(m.memory)
 		m.mapData = nil
 	}
